@@ -4,6 +4,7 @@ import Vata.UpCert
 import Vata.DownCert
 import Vata.Proofs.InclUp
 import Vata.Proofs.InclUpTotal
+import Vata.Proofs.Sanitize
 /-!
 # C01 – Explicit tree-automata inclusion is exact under every algorithm selection
 
@@ -26,6 +27,10 @@ import Vata.Proofs.InclUpTotal
   *upward, no simulation*: `SanitizeAutsForInclusion` (= `removeUseless` on both operands) followed by the work-list /
   antichain exploration `InclUp.run` of `ExplicitUpwardInclusion::checkInternal`; `inclUp` is the exploration alone (on
   operands the caller has trimmed).  `none` means "fuel exhausted / internal check failed", it is never a verdict.
+* **Preparation of the operands.**  `sanitize A B` (`Vata/Sanitize.lean`) is `SanitizeAutsForInclusion` in full:
+  `removeUseless` on both operands, then `ReindexStates` of both through weak translators that share ONE counter (the map
+  is cleared between the operands); it returns the two prepared automata and the counter.  `checkInclUpSan` runs the
+  exploration `inclUp` on these (trimmed AND renumbered) operands.
 * **Certificate principles.**  `UpCert` / `DownCert` are the invariants on which the upward antichain algorithm and the
   downward (non-recursive and recursive, with or without cache) algorithms rest: whatever search produces a set `X` of
   pairs with these closure properties has established inclusion.  They are the part of the downward selections that is
@@ -151,6 +156,39 @@ theorem C01_sanitise_preserves (A B : TA) : Incl (removeUseless A) (removeUseles
 
 example : (removeUseless TotalEx.exU).rules = [⟨0, [], 1⟩] ∧ TotalEx.exU.rules.length = 2 := by decide
 
+/-- `SanitizeAutsForInclusion` in full (model `sanitize`: useless-state removal, then dense renumbering of both operands
+with one shared counter): both languages are preserved – hence the inclusion question –, both results are trimmed
+(`allUsefulB`), the first has exactly the states `0..k-1`, the second exactly `k..n-1` where `n` is the returned
+counter, so the state sets are disjoint, all states are below `n`, and `n = |Q_A'| + |Q_B'|` -/
+theorem C01_sanitise_model (A B : TA) :
+    (∀ t, accepts (sanitize A B).1 t = accepts A t ∧ accepts (sanitize A B).2.1 t = accepts B t) ∧
+    (Incl (sanitize A B).1 (sanitize A B).2.1 ↔ Incl A B) ∧
+    (allUsefulB (sanitize A B).1 = true ∧ allUsefulB (sanitize A B).2.1 = true) ∧
+    (∀ x, (x ∈ (sanitize A B).1.states ↔ x < (sanitize A B).1.states.length) ∧
+      (x ∈ (sanitize A B).2.1.states ↔ (sanitize A B).1.states.length ≤ x ∧ x < (sanitize A B).2.2)) ∧
+    (∀ q, q ∈ (sanitize A B).1.states → q ∉ (sanitize A B).2.1.states) ∧
+    (∀ q, q ∈ (sanitize A B).1.states ∨ q ∈ (sanitize A B).2.1.states → q < (sanitize A B).2.2) ∧
+    (sanitize A B).2.2 = (sanitize A B).1.states.length + (sanitize A B).2.1.states.length :=
+  ⟨sanitize_lang A B, checkIncl_sanitized A B, sanitize_trimmed A B, sanitize_dense A B, sanitize_disjoint A B,
+    sanitize_bound A B, (sanitize_count A B).1⟩
+
+example : ((sanitize SanEx.exA SanEx.exB).1.rules, (sanitize SanEx.exA SanEx.exB).2.1.rules, (sanitize SanEx.exA SanEx.exB).2.2) =
+    ([⟨0, [], 1⟩, ⟨1, [1, 1], 0⟩], [⟨0, [], 2⟩, ⟨3, [], 2⟩, ⟨1, [2, 2], 2⟩], 3) := by decide
+-- the operands of the example overlap (state `7` in both) and the first one is not trimmed
+example : 7 ∈ SanEx.exA.states ∧ 7 ∈ SanEx.exB.states ∧ allUsefulB SanEx.exA = false := by decide
+
+/-- the selection "upward, no simulation" on the operands exactly as the code prepares them (trimmed and renumbered):
+every verdict is exact, and a verdict is returned for every fuel above the explicit bound -/
+theorem C01_upward_sanitised_exact (A B : TA) :
+    (∀ fuel b c, checkInclUpSan A B fuel = some (b, c) → (b = true ↔ Incl A B)) ∧
+    (∀ fuel, fuelBound (sanitize A B).1 (sanitize A B).2.1 < fuel →
+      (Incl A B → ∃ c, checkInclUpSan A B fuel = some (true, c)) ∧
+      (¬ Incl A B → ∃ c, checkInclUpSan A B fuel = some (false, c))) :=
+  ⟨fun _ _ _ h => checkInclUpSan_iff h, fun _ hf => checkInclUpSan_complete A B hf⟩
+
+example : ∃ c, checkInclUpSan SanEx.exA SanEx.exB 20 = some (true, c) := ⟨_, rfl⟩
+example : ∃ c, checkInclUpSan SanEx.exB SanEx.exA 20 = some (false, c) := ⟨_, rfl⟩
+
 /-!
 ## not yet proved
 
@@ -161,9 +199,6 @@ example : (removeUseless TotalEx.exU).rules = [⟨0, [], 1⟩] ∧ TotalEx.exU.r
 * The selections **with a simulation preorder** (upward with the upward-compatible downward simulation on the disjoint
   union, downward with the downward simulation): the model `inclUp` instantiates the identity relation only.  Soundness
   of pruning modulo a simulation is not proved.
-* The dense disjoint **renumbering** of `SanitizeAutsForInclusion` is not part of `checkInclUp` (the model works on
-  overlapping state numbers, see the header of `Vata/InclUp.lean`); that renaming preserves verdicts is C19
-  (`incl_equivariant`).
 * No totality theorem for the reference deciders `inclM`/`inclRef` (they return `none` on too little fuel; every
   `some` is exact).
 -/
